@@ -84,7 +84,21 @@ func genC15(t *rapid.T) *Case {
 	}
 	c.Spec = genSpec(t, nil)
 	m := BuildModel(c.Spec)
-	switch rapid.IntRange(0, 10).Draw(t, "inputKind") {
+	switch rapid.IntRange(0, 11).Draw(t, "inputKind") {
+	case 11:
+		// a single very large token (text run, attribute value or comment) between ordinary soup:
+		// destinations that buffer or coalesce writes must keep the order
+		unit := rapid.SampledFrom([]string{"long text ", "x", "&amp;", "é", "a b c d e f g h "}).Draw(t, "unit")
+		n := rapid.IntRange(1, 12000/len(unit)).Draw(t, "reps")
+		big := strings.Repeat(unit, n)
+		switch rapid.IntRange(0, 2).Draw(t, "bigKind") {
+		case 0:
+		case 1:
+			big = `<p title="` + big + `">t</p>`
+		default:
+			big = "<!--" + big + "-->"
+		}
+		c.Input = BStr(genSoup(t, m, &soupOpts{maxFrags: 4}) + big + genSoup(t, m, &soupOpts{maxFrags: 4}))
 	case 10:
 		c.Input = BStr(genCorpusMutation(t))
 	case 0:
